@@ -135,6 +135,16 @@ class C19Engine(Engine):
                     return await asyncio.wait_for(asyncio.open_connection("127.0.0.1", port), BOUND)
                 return await asyncio.wait_for(asyncio.open_unix_connection(path), BOUND)
 
+            async def idle_witness() -> bool:
+                """Structural witness for 'it is not going to happen': the loop has nothing to run on consecutive polls."""
+                loop = asyncio.get_event_loop()
+                quiet = 0
+                for _ in range(6):
+                    await asyncio.sleep(0.05)
+                    if not loop._ready:  # type: ignore[attr-defined]
+                        quiet += 1
+                return quiet >= 5
+
             clients = [Client() for _ in range(case["n"])]
             stopped = False
 
@@ -156,7 +166,10 @@ class C19Engine(Engine):
                     await c.w.drain()  # type: ignore[union-attr]
                     reply = await asyncio.wait_for(c.r.readline(), BOUND)  # type: ignore[union-attr]
                 except asyncio.TimeoutError:
-                    fail("command/no-reply-within-bound", f"{line} (stopped={stopped})")
+                    if await idle_witness():
+                        fail("command/no-reply-within-bound", f"{line} (stopped={stopped})")
+                    else:
+                        state["inconclusive"] = "reply slow"
                     return
                 except (ConnectionError, OSError) as e:
                     fail("command/connection-broken", f"{line}: {e!r} (stopped={stopped})")
@@ -200,7 +213,10 @@ class C19Engine(Engine):
                             name = await asyncio.wait_for(c.r.readline(), BOUND)
                         except asyncio.TimeoutError:
                             if not stopped:
-                                fail("handshake/no-reply-within-bound", "")
+                                if await idle_witness():
+                                    fail("handshake/no-reply-within-bound", "")
+                                else:
+                                    state["inconclusive"] = "handshake slow"
                             continue
                         except (ConnectionError, OSError):
                             name = b""
